@@ -127,3 +127,64 @@ def flae_weights(h):
     f2 = flt.FLAE(weights=w)
     h.check('weights unchanged', h.eq(w, w0))
     h.check('both instances use the same normalised weights', h.eq(f1.a, f2.a))
+
+
+@harness('C06/OLEQ.seeded', functions=[FF + 'oleq:OLEQ.estimate', FF + 'oleq:OLEQ.WW'], max_paths=6, max_decisions=80,
+         bounds='one sample at a concrete rational attitude, weights (1, 0) (the iteration matrix is a projector, the power iteration stops after 2 steps); the 4 start-vector draws are symbolic',
+         stubs=['np.random: RNG contract (global stream restarts at np.random.seed; unseeded generators are unrelated streams)'])
+def oleq_seeded(h):
+    """OLEQ.estimate under the same NumPy global seed twice: the same estimate (the start vector is the only randomness)"""
+    h.definedness = 'assume'
+    from fractions import Fraction as Fr
+    acc = np.array([Fr(2, 7), Fr(-3, 7), Fr(6, 7)], dtype=object) if h.sym else np.array([2 / 7, -3 / 7, 6 / 7])
+    mag = np.array([Fr(4, 9), Fr(1, 9), Fr(8, 9)], dtype=object) if h.sym else np.array([4 / 9, 1 / 9, 8 / 9])
+    s1, s2 = h.real('s1', 0.5, 2.0), h.real('s2', 0.5, 2.0)
+    h.pool(s1, s2)
+    acc, mag = s1 * acc, s2 * mag
+    f = flt.OLEQ(weights=np.array([1.0, 0.0]), magnetic_ref=np.array([0.6, 0.0, 0.8]))    # R is a projector: 2 iterations
+    import ahrs.filters.oleq as om          # the module's own np: the RNG contract in symbolic mode, NumPy's global RNG otherwise
+    om.np.random.seed(11)
+    q1 = f.estimate(acc.copy(), mag.copy())
+    om.np.random.seed(11)
+    q2 = f.estimate(acc.copy(), mag.copy())
+    h.out('q1', np.array(q1))
+    h.check('same global seed, same inputs: same estimate', h.eq(np.array(q1), np.array(q2)))
+
+
+_mk('AngularRate.series2', lambda q0, *d: flt.AngularRate(*d, q0=q0, method='series', order=2) if d else flt.AngularRate(q0=q0, method='series', order=2),
+    lambda f, q, g: f.update(q, g, method=f.method, order=f.order), sensors=('g',),
+    functions=[FF + 'angular:AngularRate._compute_all', FF + 'angular:AngularRate.update'])
+_mk('AngularRate.series0', lambda q0, *d: flt.AngularRate(*d, q0=q0, method='series', order=0) if d else flt.AngularRate(q0=q0, method='series', order=0),
+    lambda f, q, g: f.update(q, g, method=f.method, order=f.order), sensors=('g',), tiers=('thorough',),
+    functions=[FF + 'angular:AngularRate._compute_all', FF + 'angular:AngularRate.update'])
+_mk('AngularRate.integration', lambda q0, *d: flt.AngularRate(*d, q0=q0, method='integration') if d else flt.AngularRate(q0=q0, method='integration'),
+    lambda f, q, g: f.update(q, g, method=f.method, order=f.order), sensors=('g',), tiers=('thorough',),
+    functions=[FF + 'angular:AngularRate._compute_all', FF + 'angular:AngularRate.update'])
+
+
+@harness('C06/Mahony.b0', functions=[FF + 'mahony:Mahony.__init__', FF + 'mahony:Mahony._compute_all', FF + 'mahony:Mahony.updateIMU'],
+         max_paths=32, bounds=f'N={N}')
+def mahony_b0(h):
+    """a caller-owned initial bias b0 shared by two instances: the caller's array is left alone, the second run equals the first"""
+    h.definedness = 'assume'
+    g, a = _hist(h, ('g', 'a'))
+    q0 = h.unit_quat('q')
+    b0 = h.vec('b', 3, -0.1, 0.1)
+    before = np.array(b0, copy=True)
+    f1 = flt.Mahony(g.copy(), a.copy(), q0=q0.copy(), b0=b0)
+    Q1 = np.array(f1.Q)
+    h.out('Q_batch', Q1)
+    h.check("caller's b0 unchanged by a batch run", h.eq(b0, before))
+    f2 = flt.Mahony(g.copy(), a.copy(), q0=q0.copy(), b0=b0)
+    _cmp(h, 'second instance built from the same b0', np.array(f2.Q), Q1)
+    # streaming, interleaved with another instance built from the same b0
+    fa, fb = flt.Mahony(q0=q0.copy(), b0=b0), flt.Mahony(q0=q0.copy(), b0=b0)
+    q = Q1[0].copy()
+    Qs = [q]
+    o = h.vec('o', 3, -3, 3)
+    for t in range(1, N):
+        q = np.array(fa.updateIMU(q.copy(), g[t].copy(), a[t].copy()))
+        Qs.append(q)
+        fb.updateIMU(q0.copy(), o.copy(), a[t].copy())
+    _cmp(h, 'streaming (interleaved with another instance) == batch', np.array(Qs), Q1)
+    h.check("caller's b0 unchanged by streaming", h.eq(b0, before))
